@@ -191,17 +191,17 @@ class GlsaDirSet(GenericEquality):
                 )
             )
         elif op.startswith("r") and not base.revision and op != "rgt":
-            if op == "rlt":  # rlt -r0 can never match
-                # this is a non-range.
-                raise ValueError(
-                    f"range {op} version {node.text.strip()} is a guaranteed empty set"
+            if op == "rlt":
+                # rlt -r0 can never match: an empty range, which must not
+                # take the other ranges of its package entry down with it.
+                restrictions.append(packages.AlwaysFalse)
+            else:
+                # rle -r0 -> = -r0, rge -r0 -> ~
+                restrictions.append(
+                    atom_restricts.VersionMatch(
+                        "=" if op == "rle" else "~", base.version
+                    )
                 )
-            # rle -r0 -> = -r0, rge -r0 -> ~
-            restrictions.append(
-                atom_restricts.VersionMatch(
-                    "=" if op == "rle" else "~", base.version
-                )
-            )
         else:
             if op.startswith("r"):
                 # rgt -r0 passes through to regular ~ + >
